@@ -38,6 +38,10 @@ GConfigs ==
          { C(m, {"X-A", "x-a", "X-B", "Connection", "Content-Length"}, AllOps, {"v1", "v2"}, {"framing"}) : m \in Modes }
     [] PROFILE = 5 ->   \* normalisation OFF and a special name in a non-canonical spelling
          { C(m, {"content-type", "Content-Type", "X-A"}, AllOps, {"v1"}, {}) : m \in { <<"req", FALSE>>, <<"resp", FALSE>> } }
+    [] PROFILE = 6 ->   \* a header read from the wire (or copied from one), then operations on it
+         { C(m, {"X-A", "X-B", "Content-Type", IF m[1] = "req" THEN "Cookie" ELSE "Set-Cookie",
+                 IF m[1] = "req" THEN "Host" ELSE "Server", IF m[1] = "req" THEN "User-Agent" ELSE "Content-Encoding"},
+             AllOps, {"v1"}, {"cookie", "loadfirst"}) : m \in Modes }
     [] PROFILE = 4 ->   \* cookies, trailers and slots
          { C(m, {"X-A", "Trailer", "Content-Type", IF m[1] = "req" THEN "Cookie" ELSE "Set-Cookie",
                  IF m[1] = "req" THEN "Host" ELSE "Server"}, AllOps, {"v1"}, {"cookie", "slot"}) : m \in Modes }
@@ -55,6 +59,7 @@ VARIABLE hist
 Pairs(s) == [i \in 1..Len(s) |-> <<s[i].k, s[i].v>>]
 StepRec(o, s) ==
   [ o |-> o.o, k |-> o.k, v |-> o.v,
+    w |-> IF o.o = "Load" THEN Wire(o.v) ELSE <<>>,      \* the field lines to load from
     a |-> All(s),
     p |-> SelectSeq([i \in 1..Len(QSeq) |-> <<QSeq[i], Peek(s, QSeq[i]), PeekAll(s, QSeq[i])>>],
                     LAMBDA t : t[2] # "" \/ t[3] # <<>>),
